@@ -460,12 +460,21 @@ func cap0(v ssa.Value) bool {
 var reviewedExternalPkgs = map[string]string{
 	"strings": "pure string functions; Builder methods act on a local builder", "strconv": "pure", "math": "pure", "math/rand": "top-level functions are synchronised",
 	"time": "Now reads the clock; values are immutable", "unicode": "pure", "unicode/utf8": "pure", "fmt": "formatting only", "errors": "allocates",
+	"bytes": "pure functions on byte slices they do not write (the Buffer methods act on a local buffer)", "unicode/utf16": "pure", "math/bits": "pure", "cmp": "pure",
 }
 
 // single functions of packages that are not reviewed as a whole
 var reviewedExternalFuncs = map[string]string{
 	"reflect.DeepEqual": "reads its arguments only",
 	"reflect.TypeOf":    "reads its argument only",
+	// read-only helpers of packages that also have mutating members
+	"slices.Contains": "reads", "slices.ContainsFunc": "reads", "slices.Index": "reads", "slices.IndexFunc": "reads", "slices.Equal": "reads",
+	"slices.Clone": "allocates", "slices.BinarySearch": "reads", "slices.BinarySearchFunc": "reads", "slices.Max": "reads", "slices.Min": "reads",
+	"maps.Keys": "reads", "maps.Values": "reads", "maps.Clone": "allocates",
+	"sort.Search": "reads", "sort.SearchInts": "reads", "sort.SearchStrings": "reads", "sort.SearchFloat64s": "reads", "sort.IsSorted": "reads", "sort.SliceIsSorted": "reads",
+	// synchronisation: Once.Do runs an initialiser at most once, before any reader gets past it (what it writes is
+	// initialisation, see PURE.global); locks write nothing but themselves
+	"sync.Do": "initialiser, run once under the Once's own synchronisation", "sync.Lock": "lock", "sync.Unlock": "lock", "sync.RLock": "lock", "sync.RUnlock": "lock",
 }
 
 func (e *effectEngine) unreviewedExternals() []string {
